@@ -235,7 +235,7 @@ func c04Rejections(c *Ctx) {
 	if header == nil {
 		c.bad("IndexFromReader:item-loop", fn.Pos(), "no loop over all table items")
 	} else {
-		pass := edgesWhere(fn, func(iff *ssa.If) (bool, bool) {
+		pass := edgesWhere(header.Parent(), func(iff *ssa.If) (bool, bool) {
 			cm, truth, ok := cmpOf(iff.Cond)
 			if !ok {
 				return false, false
@@ -356,7 +356,26 @@ func c04Offsets(c *Ctx) {
 					}
 				}
 			}
-			if p, ok := ins.(*ssa.Phi); ok && p.Comment == "lastOffset" {
+		})
+		isItemOffset0 := func(v ssa.Value) bool {
+			return hasOrigin(v, func(o string) bool { return strings.HasSuffix(o, "field:FormatTableItem.Offset") })
+		}
+		// the running end offset, by role: the loop-carried value that starts at constant 0 and is
+		// advanced to an item's Offset
+		instrs(fn, func(_ *ssa.BasicBlock, _ int, ins ssa.Instruction) {
+			p, ok := ins.(*ssa.Phi)
+			if !ok {
+				return
+			}
+			zero, adv := false, false
+			for _, e := range p.Edges {
+				if k, isK := e.(*ssa.Const); isK && k.Value != nil && k.Value.ExactString() == "0" {
+					zero = true
+				} else if isItemOffset0(e) {
+					adv = true
+				}
+			}
+			if zero && adv {
 				lastPhi = p
 			}
 		})
@@ -394,8 +413,13 @@ func c04Offsets(c *Ctx) {
 	if fn := c.mustFn("Index.WriteTo"); fn != nil {
 		var offPhi *ssa.Phi
 		instrs(fn, func(_ *ssa.BasicBlock, _ int, ins ssa.Instruction) {
-			if p, ok := ins.(*ssa.Phi); ok && p.Comment == "offset" {
-				offPhi = p
+			// the accumulator, by role: a loop-carried value one of whose edges adds a chunk's Size to it
+			if p, ok := ins.(*ssa.Phi); ok {
+				for _, e := range p.Edges {
+					if bo, ok := e.(*ssa.BinOp); ok && bo.Op == token.ADD && bo.X == ssa.Value(p) && hasOrigin(bo.Y, func(o string) bool { return strings.HasSuffix(o, "field:IndexChunk.Size") }) {
+						offPhi = p
+					}
+				}
 			}
 		})
 		okAcc := false
